@@ -3,7 +3,8 @@
 From Coq Require Import String List NArith.
 From CMinx Require Import Base.Str Model.Lexer Model.Parser Model.Writer Model.DocTypes Model.Aggregator
      Model.Pipeline Model.Path Model.Naming Gen.SourceLiterals
-     Proofs.NamingFacts Proofs.AggInv Proofs.LiteralsMatch.
+     Proofs.NamingFacts Proofs.AggInv Proofs.LiteralsMatch
+     Base.PySem Gen.PySource Proofs.SourceMatch.
 Import ListNotations.
 
 (* the page: title frame (first header character repeated to exactly the title's length), then
@@ -106,3 +107,18 @@ Theorem C12_source_literals_pinned :
   = [[nl]; [nl]; module_kw; []; [nl]].
 Proof. exact (conj document_single_file_literals module_doc_literals). Qed.
 Print Assumptions C12_source_literals_pinned.
+
+(* ---- tie by translation: Gen/PySource.v is regenerated from the CURRENT Python source by
+   translators/py2coq.py (statement-by-statement rendering of the function into Gallina over the
+   combinators of Base/PySem.v); the model function is proved equal to it for all arguments ---- *)
+Theorem C12_module_process_matches_source :
+  forall w name doc,
+    PySource.ModuleDocumentation_process w [] name (Some doc)
+    = w_add w (render_entry (EModule name doc)).
+Proof. exact module_process_matches_source. Qed.
+Print Assumptions C12_module_process_matches_source.
+
+Theorem C12_heading_matches_source :
+  forall c title, heading_text c title = PySource.Heading_build_heading_string title c.
+Proof. exact heading_text_matches_source. Qed.
+Print Assumptions C12_heading_matches_source.
